@@ -4,7 +4,7 @@ import subprocess
 
 from .. import core
 
-MODULES = ["Robsd.Props.C20Arith"]
+MODULES = ["Robsd.Props.C20Arith", "Robsd.Props.C20Map", "Robsd.Props.C20Cont"]
 GENS = ["Arith", "Consts"]
 
 TYPES = {
@@ -95,16 +95,490 @@ def arith_part(ctx):
                 samples=[dict(request=l, impl=i, model=m) for l, i, m in list(zip(lines, impl, model))[:: max(1, len(lines) // 6)][:6]])
 
 
+# --------------------------------------------------------------------------
+# map / vector / buffer: the real libks (in-process, ASan+UBSan) against the
+# Lean models Robsd.Map / Robsd.Vec / Robsd.Buf and against plain Python
+# dict / list / bytes semantics (the model-free oracle)
+# --------------------------------------------------------------------------
+
+CONT_SRCS = ["libks/buffer.c", "libks/arithmetic.c", "libks/arena.c", "libks/arena-buffer.c", "libks/arena-vector.c"]
+
+
+def run_harness(exe, lines, timeout=300):
+    r = subprocess.run([exe], input=("\n".join(lines) + "\n").encode(), capture_output=True, timeout=timeout)
+    out = r.stdout.decode(errors="replace").split("\n")
+    if out and out[-1] == "":
+        out.pop()
+    return r.returncode, out, r.stderr.decode(errors="replace")
+
+
+def colliding(exe, bits, value, count, length, seed, binary):
+    rc, out, err = run_harness(exe, ["K %d %d %d %d %d %d" % (bits, value, count, length, seed, binary)])
+    for l in out:
+        if l.startswith("k "):
+            return [bytes.fromhex(h) for h in l[2:].split(",") if h and h != "-"]
+    raise core.BuildError("cont harness: no colliding keys (rc=%s %s)" % (rc, err[-300:]))
+
+
+class MapCase:
+    def __init__(self, rng, kind, keys, nops, dump_every):
+        self.rng, self.kind = rng, kind
+        self.pool = keys
+        self.present = {}          # key -> id
+        self.order = []            # keys in insertion order
+        self.nid = 0
+        self.lines = ["MAP %d" % kind]
+        self.toks = []
+        self.expect = []           # (kind, expected) per op line, None = no model-free expectation
+        self.kinds = {}
+        for i in range(nops):
+            self.op()
+            if dump_every and (i % dump_every == dump_every - 1):
+                self.emit("dump", "D", "D", None)
+        self.emit("dump", "D", "D", None)
+
+    def emit(self, kind, line, tok, expect):
+        self.kinds[kind] = self.kinds.get(kind, 0) + 1
+        self.lines.append(line)
+        self.toks.append(tok)
+        self.expect.append(expect)
+
+    def absent_key(self):
+        for _ in range(50):
+            k = self.rng.choice(self.pool)
+            if k not in self.present:
+                return k
+        return None
+
+    def op(self):
+        rng = self.rng
+        r = rng.random()
+        grow = len(self.present) < len(self.pool) * 0.8
+        if r < (0.55 if grow else 0.15):
+            k = self.absent_key()
+            if k is None:
+                return self.op_find()
+            use_n = 1 if (self.kind == 0 and rng.random() < 0.3) else 0
+            self.present[k] = self.nid
+            self.order.append(k)
+            self.emit("insert", "I %s %d %d" % (k.hex(), use_n, rng.randint(0, 7)), "I:" + k.hex(), ("i", self.nid))
+            self.nid += 1
+        elif r < 0.75:
+            self.op_find()
+        elif r < 0.93:
+            if self.present and rng.random() < 0.85:
+                k = rng.choice(self.order)
+                kind = "remove-present"
+            else:
+                k = self.absent_key() or rng.choice(self.pool)
+                kind = "remove-present" if k in self.present else "remove-absent"
+            if k in self.present:
+                del self.present[k]
+                self.order.remove(k)
+            self.emit(kind, "R %s %d" % (k.hex(), rng.randint(0, 7)), "R:" + k.hex(), ("r", None))
+        else:
+            q = rng.random()
+            if q < 0.4:
+                rm = []
+            elif q < 0.5:
+                rm = list(self.order)
+            else:
+                rm = [k for k in self.order if rng.random() < 0.3]
+            ids = [self.present[k] for k in rm]
+            exp = [self.present[k] for k in self.order]
+            for k in rm:
+                del self.present[k]
+                self.order.remove(k)
+            self.emit("iterate-removing" if rm else "iterate", "T ,%s," % ",".join(map(str, ids)) if ids else "T -",
+                      "T:" + (";".join(map(str, ids)) if ids else "-"), ("t", exp))
+
+    def op_find(self):
+        rng = self.rng
+        if self.present and rng.random() < 0.7:
+            k = rng.choice(self.order)
+        else:
+            k = rng.choice(self.pool)
+        use_n = 1 if (self.kind == 0 and rng.random() < 0.3) else 0
+        self.emit("find-present" if k in self.present else "find-absent",
+                  "F %s %d %d" % (k.hex(), rng.randint(0, 7), use_n), "F:" + k.hex(), ("f", self.present.get(k)))
+
+
+def word_keys(rng, n, lo, hi, alphabet):
+    ks = set()
+    while len(ks) < n:
+        ks.add(bytes(rng.choice(alphabet) for _ in range(rng.randint(lo, hi))))
+    return sorted(ks)
+
+
+def map_part(ctx, exe):
+    rng = ctx.rng
+    cases = []
+    alnum = b"abcdefghijklmnopqrstuvwxyz0123456789_-/."
+    nonul = bytes(range(1, 256))
+    ncase = ctx.n(40, 1500)
+    for t in range(ncase):
+        m = t % 8
+        big = t < 8     # the first round always has the largest shapes
+        if m == 0:      # int keys
+            keys = sorted({rng.randrange(0, 1 << 32).to_bytes(4, "little") for _ in range(3000 if big else rng.choice([40, 400, 3000]))} |
+                          {(i).to_bytes(4, "little") for i in range(rng.choice([0, 50, 600]))})
+            cases.append((1, keys, rng.choice([60, 400, 4000]) if len(keys) > 1000 and not big else 4000 if big else rng.choice([60, 400])))
+        elif m == 1:    # short and long string keys (the hash reads 12-byte blocks)
+            cases.append((0, word_keys(rng, 2500 if big else rng.choice([30, 300, 2500]), 1, 40, alnum), 3500 if big else rng.choice([80, 500, 3500])))
+        elif m == 2:    # arbitrary non-NUL bytes
+            cases.append((0, word_keys(rng, rng.choice([30, 300]), 1, 30, nonul), rng.choice([80, 600])))
+        elif m == 3:    # all keys in one initial bucket: expansion after 10 insertions
+            keys = colliding(exe, 5, rng.randrange(32), rng.choice([24, 60, 200]), rng.choice([3, 5, 13]), rng.randrange(1 << 20), 0)
+            cases.append((0, keys, rng.choice([80, 300])))
+        elif m == 4:    # colliding on 12..16 bits: ineffective expansions, then noexpand
+            keys = colliding(exe, 16 if big else rng.choice([12, 14, 16]), rng.randrange(4096), 260 if big else rng.choice([60, 130, 260]), rng.choice([6, 9, 14]), rng.randrange(1 << 20), 0)
+            cases.append((0, keys, rng.choice([200, 500])))
+        elif m == 5:    # int keys in one bucket
+            keys = colliding(exe, rng.choice([5, 10, 14]), rng.randrange(32), rng.choice([30, 150]), 4, rng.randrange(1 << 20), 1)
+            cases.append((1, keys, rng.choice([100, 400])))
+        elif m == 6:    # small maps emptied and refilled (table freed and remade)
+            cases.append((rng.randint(0, 1), word_keys(rng, 6, 4, 4, alnum), 120))
+        else:           # two colliding families mixed with random keys
+            keys = colliding(exe, 8, rng.randrange(256), 40, 7, rng.randrange(1 << 20), 0) + \
+                colliding(exe, 8, rng.randrange(256), 40, 12, rng.randrange(1 << 20), 0) + word_keys(rng, 100, 1, 20, alnum)
+            cases.append((0, sorted(set(keys)), 500))
+    kinds, reqs, infos, wants = {}, [], [], []
+    stats = dict(max_buckets=0, noexpand_cases=0, expansions_crossed={}, emptied=0)
+    nops = 0
+    for kind, keys, n in cases:
+        c = MapCase(rng, kind, keys, n, dump_every=(1 if n <= 120 else 25))
+        rc, out, err = run_harness(exe, c.lines)
+        info = dict(harness="harness/cont_harness.c (ASan+UBSan) including /repo/libks/map.c", stdin=c.lines if len(c.lines) < 400 else c.lines[:400] + ["... %d more" % (len(c.lines) - 400)], rc=rc, stderr=err[-800:])
+        for k, v in c.kinds.items():
+            kinds[k] = kinds.get(k, 0) + v
+        nops += len(c.toks)
+        orc = [l for l in out if l.startswith("ORACLE")]
+        res = [l for l in out if not l.startswith("ORACLE") and not l.startswith("PARAMS") and l != "DONE"]
+        if rc != 0 or "DONE" not in out:
+            ctx.violation("the map harness died (%s) after %d of %d operations on a %s-keyed map" % (
+                core.sanitizer_report(err.encode()) or ("rc=%s" % rc), len(res), len(c.toks), "string" if kind == 0 else "integer"), info)
+            continue
+        for m_ in orc[:3]:
+            ctx.violation("libks map: " + m_[7:], info)
+        if len(res) != len(c.toks):
+            ctx.disagreement("map harness answered %d lines for %d operations" % (len(res), len(c.toks)), info)
+            continue
+        # model-free oracle: dictionary + insertion order
+        nb_seen = set()
+        for i, (l, exp) in enumerate(zip(res, c.expect)):
+            if "#" in l:
+                hdr = l.split("#")[1].split(":")
+                nb_seen.add(int(hdr[0]))
+                stats["max_buckets"] = max(stats["max_buckets"], int(hdr[0]))
+            if exp is None:
+                continue
+            body = l.split(" #")[0].split(" ")
+            bad = None
+            if exp[0] == "i" and (body[0] != "i" or body[1] != str(exp[1])):
+                bad = "insert did not return a new element"
+            elif exp[0] == "f" and body[1] != ("-" if exp[1] is None else str(exp[1])):
+                bad = "find(%s) returned %s, the dictionary holds %s" % (c.toks[i][2:], body[1], exp[1])
+            elif exp[0] == "t":
+                got = [] if body[1] == "-" else [int(x) for x in body[1].split(",")]
+                if got != exp[1] or body[2] != "1":
+                    bad = "iteration returned %s, live entries in insertion order are %s" % (got[:40], exp[1][:40])
+            if bad:
+                ctx.violation("libks map (%s keys), operation %d: %s" % ("string" if kind == 0 else "integer", i, bad), dict(info, at=i, op=c.lines[i + 1]))
+                break
+        if any(l.endswith(":1:2") or " noexpand=1" in l for l in res):
+            stats["noexpand_cases"] += 1
+        if 0 in nb_seen and len(nb_seen) > 2:
+            stats["emptied"] += 1
+        nexp = len([b for b in nb_seen if b > 32])
+        stats["expansions_crossed"][nexp] = stats["expansions_crossed"].get(nexp, 0) + 1
+        reqs.append("map " + ",".join(c.toks))
+        wants.append(res)
+        infos.append(info)
+    ans = ctx.model(reqs) if reqs else []
+    nd = 0
+    for q, a, w, info in zip(reqs, ans, wants, infos):
+        ms = a.split("|")
+        if ms != w:
+            i = next((i for i in range(max(len(ms), len(w))) if i >= len(ms) or i >= len(w) or ms[i] != w[i]), None)
+            nd += 1
+            if nd <= 4:
+                toks = q.split(" ")[1].split(",")
+                ctx.disagreement("Map model vs libks/map.c", dict(at_op=i, op=toks[i] if i is not None and i < len(toks) else None,
+                                 impl=(w[i] if i is not None and i < len(w) else None), model=(ms[i] if i is not None and i < len(ms) else None),
+                                 ops_before=toks[max(0, (i or 0) - 10):(i or 0)], info=dict(info, stdin=info["stdin"][:60])))
+    return dict(cases=len(cases), ops=nops, kinds=kinds, stats=stats, compared=len(reqs),
+                sample=dict(request=reqs[0][:160], impl=" | ".join(wants[0][:3])[:200]) if reqs else None)
+
+
+def fmt_out(kind, args):
+    if kind == "s":
+        return args[0]
+    if kind == "d":
+        return str(args[0]).encode()
+    if kind == "x":
+        return b"[" + args[0] + b"|" + ("%5d" % args[1]).encode() + b"]"
+    return ("%d:" % args[0]).encode() + args[1][:args[2]] + b";"
+
+
+def pylines(data):
+    if not data:
+        return []
+    parts = data.split(b"\n")
+    if data.endswith(b"\n"):
+        parts.pop()
+    return [p.split(b"\0")[0] for p in parts]
+
+
+class ContCase:
+    """one process: a vector of unsigned long and a buffer, malloc or arena backed"""
+
+    def __init__(self, rng, arena, nops, hdr):
+        self.rng = rng
+        self.arena = arena
+        self.vinit = rng.choice([0, 0, 1, 5, 16, 17]) if arena else 0
+        self.binit = rng.choice([0, 1, 16, 100, 1 << 10, 1 << 13])
+        self.lines = ["CONT %d %d %d" % (arena, self.vinit, self.binit)]
+        self.vtoks, self.btoks = [], []
+        self.which = []            # per op: ("v"| "b", expectation)
+        self.vec, self.buf = [], bytearray()
+        self.kinds = {}
+        for _ in range(nops):
+            self.op()
+        self.emit("v", "vec-dump", "VD", "D", ("items", list(self.vec)))
+        self.emit("b", "buf-dump", "BG", "G", ("bytes", bytes(self.buf)))
+
+    def emit(self, w, kind, line, tok, exp):
+        self.kinds[kind] = self.kinds.get(kind, 0) + 1
+        self.lines.append(line)
+        (self.vtoks if w == "v" else self.btoks).append(tok)
+        self.which.append((w, exp))
+
+    def blob(self):
+        rng = self.rng
+        n = rng.choice([0, 1, 2, 7, 15, 16, 17, 60, 300, 1023, 1024, 5000]) if rng.random() < 0.5 else rng.randint(0, 80)
+        q = rng.random()
+        if q < 0.5:
+            return bytes(rng.choice(b"abc \n\n.xyz") for _ in range(n))
+        if q < 0.8:
+            return bytes(rng.randint(1, 255) for _ in range(n))
+        return bytes(rng.choice([0, 10, 65, 66, 255]) for _ in range(n))
+
+    def op(self):
+        rng = self.rng
+        if rng.random() < 0.45:
+            r = rng.random()
+            v = self.vec
+            if r < 0.45:
+                x = rng.choice([0, 1, 2 ** 64 - 1, rng.randrange(2 ** 64), rng.randrange(100)])
+                self.emit("v", "alloc", "VA %d" % x, "A:%d" % x, ("slot", (len(v), x)))
+                v.append(x)
+            elif r < 0.52:
+                self.emit("v", "calloc", "VC", "C", ("slot", (len(v), 0)))
+                v.append(0)
+            elif r < 0.64:
+                self.emit("v", "pop", "VP", "P", ("slot", (len(v) - 1, v[-1]) if v else None))
+                if v:
+                    v.pop()
+            elif r < 0.76:
+                n = rng.choice([0, 1, 2, 5, 15, 16, 17, 31, 32, 33, 40, 100, 1000, 2 * len(v) + 40, 3 * len(v) + 1])
+                self.emit("v", "reserve", "VR %d" % n, "R:%d" % n, ("status", 0))
+            elif r < 0.82:
+                self.emit("v", "sort", "VS", "S", None)
+                v.sort()
+            elif r < 0.84:
+                self.emit("v", "clear", "VX", "X", None)
+                del v[:]
+            elif r < 0.89:
+                self.emit("v", "first", "VF", "F", ("slot", (0, v[0]) if v else None))
+            elif r < 0.94:
+                self.emit("v", "last", "VL", "L", ("slot", (len(v) - 1, v[-1]) if v else None))
+            elif r < 0.97:
+                self.emit("v", "length", "VN", "N", ("len", len(v)))
+            else:
+                self.emit("v", "vec-dump", "VD", "D", ("items", list(v)))
+            return
+        r = rng.random()
+        b = self.buf
+        if r < 0.30:
+            x = self.blob()
+            self.emit("b", "puts" if x else "puts-empty", "BP %s" % (x.hex() or "-"), "P:" + (x.hex() or "-"), ("status", 0))
+            b += x
+        elif r < 0.38:
+            c = rng.choice([0, 10, 65, 255, rng.randint(0, 255)])
+            self.emit("b", "putc", "BC %d" % c, "C:%d" % c, ("status", 0))
+            b.append(c)
+        elif r < 0.56:
+            k = rng.choice("sdxz")
+            arg = bytes(x for x in self.blob() if x != 0)
+            if rng.random() < 0.3:
+                # fill the buffer exactly up to its capacity boundary +-1 (the NUL of vsnprintf)
+                arg = bytes(rng.choice(b"pq") for _ in range(rng.choice([15, 16, 17, 31, 32, 33, 63, 64, 1023, 1024])))
+            if k == "s":
+                args, line = (arg,), "BF s %s" % (arg.hex() or "-")
+            elif k == "d":
+                n = rng.choice([0, -1, 7, 2 ** 31 - 1, -2 ** 31, rng.randint(-10 ** 6, 10 ** 6)])
+                args, line = (n,), "BF d %d" % n
+            elif k == "x":
+                n = rng.randint(-99999, 999999)
+                args, line = (arg, n), "BF x %s %d" % (arg.hex() or "-", n)
+            else:
+                sz, prec = rng.choice([0, 1, 2 ** 64 - 1, rng.randrange(10 ** 9)]), rng.choice([0, 1, 3, len(arg), len(arg) + 5])
+                args, line = (sz, arg, prec), "BF z %d %s %d" % (sz, arg.hex() or "-", prec)
+            out = fmt_out(k, args)
+            self.emit("b", "printf-" + k, line, "F:" + (out.hex() or "-"), ("status", 0))
+            b += out
+        elif r < 0.60:
+            self.emit("b", "reset", "BR", "R", None)
+            del b[:]
+        elif r < 0.68:
+            n = rng.choice([0, 1, 2, len(b), len(b) + 1, rng.randint(0, max(1, len(b)))])
+            k = min(n, len(b))
+            self.emit("b", "pop", "BO %d" % n, "O:%d" % n, ("n", k))
+            del b[len(b) - k:]
+        elif r < 0.72:
+            want = bytes(b) if (b and b[-1] == 0) else bytes(b) + b"\0"
+            self.emit("b", "str", "BS", "S", ("bytes", want))
+            del b[:]
+        elif r < 0.80:
+            f = self.blob() * rng.choice([1, 1, 3, 40])
+            q = rng.random()
+            if q < 0.3:
+                cs = []
+            elif q < 0.6:
+                cs = [rng.choice([1, 2, 7, 11, 100, 4096, 8191, 8192, 10 ** 6]) for _ in range(rng.randint(1, 12))]
+            else:
+                cs = [rng.randint(1, 64) for _ in range(rng.randint(1, 400))]
+            self.emit("b", "read-fd" if cs else "read-fd-whole", "BD %s %s" % (f.hex() or "-", ",".join(map(str, cs)) or "-"),
+                      "D:%s:%s" % (f.hex() or "-", ";".join(map(str, cs)) or "-"), ("status", 0))
+            del b[:]
+            b += f
+        elif r < 0.88:
+            self.emit("b", "getline", "BL", "L", ("lines", pylines(bytes(b))))
+        elif r < 0.92:
+            self.emit("b", "len", "BN", "N", ("n", len(b)))
+        elif r < 0.96:
+            o = bytes(b) if rng.random() < 0.5 else self.blob()
+            self.emit("b", "cmp", "BM %s" % (o.hex() or "-"), "M:" + (o.hex() or "-"), ("cmp", int(o != bytes(b))))
+        else:
+            self.emit("b", "buf-dump", "BG", "G", ("bytes", bytes(b)))
+
+
+def check_expect(exp, body):
+    """model-free expectation against one harness answer; returns a message or None"""
+    kind, val = exp
+    w = body.split(" ")
+    if w[0] != kind:
+        return "answered '%s' where '%s ...' is expected" % (body[:60], kind)
+    if kind == "status" or kind == "n" or kind == "len" or kind == "cmp":
+        return None if int(w[1]) == val else "returned %s, expected %s" % (w[1], val)
+    if kind == "slot":
+        got = None if w[1] == "-" else (int(w[1]), int(w[2]))
+        return None if got == val else "returned element %s, the array has %s" % (got, val)
+    if kind == "items":
+        got = [] if w[1] == "-" else [int(x) for x in w[1].split(",")]
+        return None if got == val else "contents are %s..., the array is %s..." % (got[:12], val[:12])
+    if kind == "bytes":
+        got = b"" if w[1] == "-" else bytes.fromhex(w[1]) if w[1] != "!" else None
+        return None if got == val else "contents are %r..., the byte string is %r... (lengths %s, %d)" % (
+            got[:40] if got is not None else None, val[:40], len(got) if got is not None else None, len(val))
+    if kind == "lines":
+        got = [] if w[1] == "." else [b"" if x == "-" else bytes.fromhex(x) for x in w[1].split(",")]
+        return None if got == val else "getline yields %d lines %r..., the text has %d lines %r..." % (len(got), got[:4], len(val), val[:4])
+    return None
+
+
+def cont_part(ctx, exe):
+    rng = ctx.rng
+    rc, out, _ = run_harness(exe, [])
+    hdr, stride = [int(x) for x in out[0].split()[1:3]]
+    kinds, vreqs, breqs, vwants, bwants, vinfos, binfos = {}, [], [], [], [], [], []
+    ncase = ctx.n(60, 3000)
+    nops = 0
+    reallocs = 0
+    for t in range(ncase):
+        c = ContCase(rng, arena=(t % 3 == 2), nops=rng.choice([30, 120, 400]), hdr=hdr)
+        rc, out, err = run_harness(exe, c.lines)
+        info = dict(harness="harness/cont_harness.c (ASan+UBSan) including /repo/libks/vector.c, linked with buffer.c; %s backed" % ("arena" if c.arena else "malloc"),
+                    stdin=c.lines if len(c.lines) < 300 else c.lines[:300] + ["... %d more" % (len(c.lines) - 300)], rc=rc, stderr=err[-800:])
+        for k, v in c.kinds.items():
+            kinds[k] = kinds.get(k, 0) + v
+        nops += len(c.which)
+        orc = [l for l in out if l.startswith("ORACLE")]
+        res = [l for l in out if not l.startswith("ORACLE") and not l.startswith("PARAMS") and l != "DONE"]
+        if rc != 0 or "DONE" not in out:
+            ctx.violation("the vector/buffer harness died (%s) after %d of %d operations (%s backed)" % (
+                core.sanitizer_report(err.encode()) or ("rc=%s" % rc), len(res), len(c.which), "arena" if c.arena else "malloc"), info)
+            continue
+        for m_ in orc[:3]:
+            ctx.violation("libks buffer: " + m_[7:], info)
+        if len(res) != len(c.which):
+            ctx.disagreement("vector/buffer harness answered %d lines for %d operations" % (len(res), len(c.which)), info)
+            continue
+        vres, bres = [], []
+        prev_siz = {}
+        for i, (l, (w, exp)) in enumerate(zip(res, c.which)):
+            (vres if w == "v" else bres).append(l)
+            siz = l.rsplit(":", 1)[1]
+            if prev_siz.get(w) not in (None, siz):
+                reallocs += 1
+            prev_siz[w] = siz
+            if exp is not None:
+                bad = check_expect(exp, l.split(" #")[0])
+                if bad:
+                    ctx.violation("libks %s (%s backed), operation %d `%s`: %s" % (
+                        "vector" if w == "v" else "buffer", "arena" if c.arena else "malloc", i, c.lines[i + 1][:80], bad), dict(info, at=i))
+                    break
+        vreqs.append("vec %d %d %d %s" % (hdr, stride, c.vinit, ",".join(c.vtoks)))
+        vwants.append(vres)
+        vinfos.append(info)
+        breqs.append("buf %d %s" % (c.binit, ",".join(c.btoks)))
+        bwants.append(bres)
+        binfos.append(info)
+    nd = 0
+    for what, reqs, wants, infos in (("Vec model vs libks/vector.c", vreqs, vwants, vinfos), ("Buf model vs libks/buffer.c", breqs, bwants, binfos)):
+        ans = ctx.model(reqs) if reqs else []
+        for q, a, w, info in zip(reqs, ans, wants, infos):
+            ms = a.split("|")
+            if ms != w:
+                i = next((i for i in range(max(len(ms), len(w))) if i >= len(ms) or i >= len(w) or ms[i] != w[i]), None)
+                nd += 1
+                if nd <= 4:
+                    toks = q.split(" ")[-1].split(",")
+                    ctx.disagreement(what, dict(at_op=i, op=toks[i][:120] if i is not None and i < len(toks) else None,
+                                     impl=(w[i][:200] if i is not None and i < len(w) else None), model=(ms[i][:200] if i is not None and i < len(ms) else None),
+                                     ops_before=[x[:60] for x in toks[max(0, (i or 0) - 8):(i or 0)]], info=dict(info, stdin=info["stdin"][:80])))
+    return dict(cases=ncase, ops=nops, kinds=kinds, capacity_changes=reallocs, compared=len(vreqs) + len(breqs),
+                sample=dict(request=breqs[0][:160], impl=" | ".join(bwants[0][:3])[:200]) if breqs else None)
+
+
 def run(ctx):
     ctx.translate(GENS)
     ok = ctx.lake_build(MODULES)
     ctx.audit(MODULES)
     a = arith_part(ctx)
+    extra = ["-Wl,--wrap=read", "-I" + os.path.join(core.VERIF, "harness")]
+    exe = ctx.cc_harness("cont_harness", ["cont_harness.c"], extra=extra, flavour="asan", repo_objs=CONT_SRCS)
+    m = map_part(ctx, exe)
+    c = cont_part(ctx, exe)
     ctx.cov.update(dict(
-        evaluations=a["evaluations"], distinct_nontrivial=a["nontrivial"],
-        rule="arith: full cross-product of boundary operands per type and operation plus a seeded sample "
+        evaluations=a["evaluations"] + m["ops"] + c["ops"], distinct_nontrivial=a["nontrivial"] + m["cases"] + c["cases"],
+        containers=dict(map=m, vector_buffer=c),
+        rule="map: operation sequences (insert of absent keys, find/remove of present and absent keys through pointers at every alignment and the _N variants, "
+             "whole iterations removing a subset of the current entries) over string- and integer-keyed maps: random keys up to 3000 entries, key families colliding on the "
+             "low 5..16 hash bits (found with the real HASH_JEN) to cross expansions and reach the noexpand state, tiny maps emptied and refilled; after every operation the "
+             "table header, and regularly every bucket chain with count and expand_mult, is compared with the Lean model, and the harness checks back pointers, counts and "
+             "value addresses on the real memory; vector/buffer: interleaved operation sequences on a malloc- or arena-backed vector and buffer (reserve incl. far beyond "
+             "the capacity, alloc/calloc/pop/sort/clear/first/last; puts/putc/printf with four formats at capacity boundaries, reset/pop/str/cmp/getline, buffer_read_fd on a "
+             "descriptor delivering prescribed chunk sizes via --wrap=read), length and capacity compared with the model after every operation, contents against Python "
+             "list/bytes semantics. arith: full cross-product of boundary operands per type and operation plus a seeded sample "
              "(uniform, near-limit products, boundary x uniform); non-trivial = the exact result overflows or exceeds half the width; "
              "each case is run on the real fallback (KS_*_overflow0), the real builtin wrapper, the generated Lean model and the Lean spec",
-        samples=a["samples"], traces_validated_against_impl=a["evaluations"], outcome_kinds=a["kinds"]))
+        samples=a["samples"] + [x for x in (m["sample"], c["sample"]) if x],
+        traces_validated_against_impl=a["evaluations"] + m["compared"] + c["compared"], outcome_kinds=a["kinds"]))
     ctx.trusted += ["__builtin_*_overflow intrinsics (their specification is CArith.spec; cross-checked on every case)",
-                    "translation of C expressions to CArith (translate/cexpr.py); LP64: size_t = 64 bit"]
+                    "translation of C expressions to CArith (translate/cexpr.py); LP64: size_t = 64 bit",
+                    "map/vector/buffer: pointers are modelled as identities (element id) and lists (prev/next/hh_prev/hh_next chains); the harness checks on the real memory that the "
+                    "back pointers mirror the forward lists; malloc/calloc/realloc/free, memcpy, memcmp, qsort (any correct sort: theorem sort_any), vsnprintf (its output is an input "
+                    "of the model) are trusted; allocation failure and the 2^31-bucket overflow exit are not modelled; little-endian 32-bit loads in HASH_JEN"]
+    ctx.assumptions += ["map: a key is inserted only while absent (Spec.guarded), as every caller in robsd does (find before insert)",
+                        "vector/buffer: requests stay far below SIZE_MAX (Fits / smallOp); beyond that the code returns an error and leaves the container unchanged (reserve1_err_unchanged)"]
